@@ -91,3 +91,19 @@ Definition nth_request (fw : flavour) (ftl : bool) (ms : list mw) (strict : opti
   nth k (serve_n (serve fw ftl strict) (indexed ms) (S k)) [].
 Definition serve_reversing (ftl : bool) (strict : option (list mw)) (s : slice) : slice * list event :=
   let s' := if ftl then rev s else s in (s', wrap_loop EMw s' (inner_of strict)).
+
+(** * What a gin middleware does to the context besides its own work.  gin's loop in the generated wrapper is
+      [for _, m := range siw.HandlerMiddlewares { m(c); if c.IsAborted() { return } }]: only aborting stops the chain.
+      A middleware that has written to the response (flushed headers, a streaming prefix) and did not abort passes on. *)
+Inductive gmw := GPass | GAbort | GWrite.
+Definition erase (m : gmw) : mw := match m with GAbort => Stop | _ => Pass end.
+Definition aborts (m : gmw) : bool := match m with GAbort => true | _ => false end.
+Definition writes (m : gmw) : bool := match m with GPass => false | _ => true end.   (* AbortWithStatus writes too *)
+Fixpoint gin_loop (stop : bool -> bool -> bool) (ms : list (nat * gmw)) (written : bool) (inner : list event) : list event :=
+  match ms with
+  | [] => inner
+  | m :: r => EMw (fst m) ::
+      (if stop (aborts (snd m)) (written || writes (snd m)) then [] else gin_loop stop r (written || writes (snd m)) inner)
+  end.
+Definition template_stop (aborted written : bool) : bool := aborted.
+Definition stop_when_written (aborted written : bool) : bool := aborted || written.
